@@ -2112,6 +2112,13 @@ func (db *DB) sync(ctx context.Context, checkpointing bool, exec *syncExecutor, 
 	}
 	defer walFile.Close()
 
+	// A snapshot is the database file overlaid with every committed frame of
+	// the WAL. Whatever position verify() stopped at, frames before it may not
+	// be checkpointed into the database file yet, so read from the header.
+	if info.snapshotting {
+		info.offset = WALHeaderSize
+	}
+
 	walReaderLogger := db.Logger.With(LogKeySubsystem, LogSubsystemWALReader)
 	var rd *WALReader
 	if info.offset == WALHeaderSize {
